@@ -110,6 +110,17 @@ Example prc_example :
   rap_row 4%positive 1 [(3%Z, (false, w)); (2%Z, (true, w))] = (Fin 0, 3%Z).
 Proof. vm_compute. repeat split; reflexivity. Qed.
 
+(* Observation outside the statement of C05: the *threshold* reported next to the recall need not
+   itself meet the precision bound (it is the largest threshold whose recall equals the maximum).
+   Scores (0.75 negative, 0.5 positive), min_precision 1: result (0, 0.75); precision at 0.75 is 0. *)
+Example rap_reported_threshold_meets_bound_refuted :
+  exists (l : list sample) (minp : Qc) (t : Z),
+    rap_row 4%positive minp l = (Fin 0, t) /\ minp <= 1 /\ ~ (minp <= prec_at l t).
+Proof.
+  exists [(3%Z, (false, mkq 1%Z 1%positive)); (2%Z, (true, mkq 1%Z 1%positive))], 1, 3%Z.
+  split; [vm_compute; reflexivity|]. split; [apply Qcle_refl|]. vm_compute. intros H. apply H. reflexivity.
+Qed.
+
 Print Assumptions auroc_pairwise.
 Print Assumptions auroc_kernel_pairwise.
 Print Assumptions binary_auroc_is_pairwise.
